@@ -21,7 +21,7 @@ HasErrFieldError(d) ==
      /\ d.members[i].kind = "error" /\ d.members[i].t # <<>>
      /\ \E f \in 1..Len(d.members[i].t[1].fs) : d.members[i].t[1].fs[f].n = "error"
 T07 == /\ Ev("C07")
-       /\ E.toks = TokD(E.desc)
+       /\ E.toks = TokD(E.desc) /\ E.style \in Styles
        /\ JoinS(E.namechars) = E.desc.name
        /\ LET g == E.got IN
           /\ ~g.crashed /\ ~g.timed_out /\ g.exit = 0 /\ g.nfiles = 1
